@@ -166,10 +166,10 @@ def gen_structure(rng, B, *, max_payload=400, max_chunks=8, adv_bytes=None):
         else:
             data = bytes(rng.getrandbits(8) for _ in range(sz))
         chunks.append({'data': data.hex(), 'upper': rng.random() < 0.4,
-                       'zeros': rng.choice([0, 0, 0, 1, 3]), 'ext': gen_ext(rng) if rng.random() < 0.35 else ''})
+                       'zeros': rng.choice([0, 0, 0, 0, 1, 3, 7, 15, 16, 17, 33]), 'ext': gen_ext(rng) if rng.random() < 0.35 else ''})
     return {
         'chunks': chunks,
-        'last': {'zeros': rng.choice([0, 0, 0, 1, 2]), 'ext': gen_ext(rng) if rng.random() < 0.2 else ''},
+        'last': {'zeros': rng.choice([0, 0, 0, 1, 2, 16, 30]), 'ext': gen_ext(rng) if rng.random() < 0.2 else ''},
         'trailers': gen_trailers(rng),
         'final_crlf': rng.random() < 0.85,
     }
